@@ -686,7 +686,7 @@ pub fn finish_response(
     let mut guard = 0u32;
     let response = loop {
         guard += 1;
-        if guard > 100_000 {
+        if guard > 20_000 {
             return Err(v("response head is never returned"));
         }
         if s.premature_budget > 0 && s.flag(5) {
